@@ -113,6 +113,8 @@ type Program struct {
 	Subs    map[string]*Program `json:"subs,omitempty"`
 	// SrcPrefix distinguishes the plugin sources of different (sub-)workflows.
 	SrcPrefix string `json:"src_prefix,omitempty"`
+	// Explicit lists outputs that get an explicit outputSchema {x: integer} with the given error flag.
+	Explicit map[string]bool `json:"explicit,omitempty"`
 }
 
 // Src is the plugin source of a step.
@@ -439,6 +441,17 @@ func (p *Program) YAML() string {
 	b.WriteString("outputs:\n")
 	for _, o := range p.Outputs {
 		b.WriteString("  " + o.ID + ":" + yamlValue(o.E, 4))
+	}
+	if len(p.Explicit) > 0 {
+		b.WriteString("outputSchema:\n")
+		ids := make([]string, 0, len(p.Explicit))
+		for id := range p.Explicit {
+			ids = append(ids, id)
+		}
+		sort.Strings(ids)
+		for _, id := range ids {
+			fmt.Fprintf(&b, "  %s:\n    error: %v\n    schema:\n      root: Out_%s\n      objects:\n        Out_%s:\n          id: Out_%s\n          properties:\n            x:\n              type:\n                type_id: integer\n", id, p.Explicit[id], id, id, id)
+		}
 	}
 	return b.String()
 }
